@@ -137,7 +137,7 @@ class _Proxy:
       if who == 'A' and ctl.k is not None:
         if ctl.count == ctl.k:
           ctl.paused.set()
-          ctl.resume.wait(10)
+          ctl.resume.wait(30)
         ctl.count += 1
       ctl.trace.append((who, name))
       if name == 'delete_trial' and a:
@@ -259,8 +259,8 @@ def _schedule(a_name, b_name, k, args):
       tb.join(0.002)
       waited += 0.002
     ctl.resume.set()
-    ta.join(5)
-    tb.join(5)
+    ta.join(20)
+    tb.join(20)
     tag = '%s|%s@%d' % (a_name, b_name, k)
     if ta.is_alive() or tb.is_alive():
       reach('deadlock')
@@ -376,7 +376,7 @@ def _triple(names, k, args):
       others.append(t)
     ctl.resume.set()
     for t in [ta] + others:
-      t.join(5)
+      t.join(20)
     tag = '%s|%s|%s@%d' % (names[0], names[1], names[2], k)
     if any(t.is_alive() for t in [ta] + others):
       reach('deadlock3')
